@@ -235,7 +235,8 @@ fn eval_quantity(
                 .fold(Ok(Dimensionality::default()), |acc, value| {
                     let acc = acc?;
                     let value = eval_quantity(base_units, quantities, value)?;
-                    Ok(&acc * &value)
+                    acc.checked_mul(&value)
+                        .ok_or_else(|| "Exponent is too big".to_string())
                 })
         }
         Expr::BinOp(BinOpExpr {
@@ -245,7 +246,10 @@ fn eval_quantity(
         }) => {
             let left = eval_quantity(base_units, quantities, &*left)?;
             let right = eval_quantity(base_units, quantities, &*right)?;
-            Ok(&left / &right)
+            right
+                .checked_pow(-1)
+                .and_then(|right| left.checked_mul(&right))
+                .ok_or_else(|| "Exponent is too big".to_string())
         }
         Expr::BinOp(BinOpExpr {
             op: BinOpType::Pow,
@@ -258,7 +262,8 @@ fn eval_quantity(
                     let value = value
                         .to_int()
                         .ok_or_else(|| "RHS of `^` is too big".to_string())?;
-                    Ok(left.pow(value))
+                    left.checked_pow(value)
+                        .ok_or_else(|| "RHS of `^` is too big".to_string())
                 }
                 Expr::UnaryOp(UnaryOpExpr {
                     op: UnaryOpType::Negative,
@@ -268,7 +273,8 @@ fn eval_quantity(
                         let value = -value
                             .to_int()
                             .ok_or_else(|| "RHS of `^` is too big".to_string())?;
-                        Ok(left.pow(value))
+                        left.checked_pow(value)
+                            .ok_or_else(|| "RHS of `^` is too big".to_string())
                     } else {
                         Err(format!("RHS of `^` must be a constant: {expr}"))
                     }
@@ -279,7 +285,9 @@ fn eval_quantity(
         Expr::UnaryOp(UnaryOpExpr {
             op: UnaryOpType::Negative,
             ref expr,
-        }) => Ok(eval_quantity(base_units, quantities, &*expr)?.recip()),
+        }) => eval_quantity(base_units, quantities, &*expr)?
+            .checked_pow(-1)
+            .ok_or_else(|| "Exponent is too big".to_string()),
         ref expr => Err(format!("Invalid expression in quantity: {expr}")),
     }
 }
